@@ -89,6 +89,12 @@ def wBarrier0 : List (Call Empty) := [.barrier []]
 def wCondCtl : List (Call Empty) := [.addConditionalGate [1] 1 .X [0]]
 /-- 65 control bits -/
 def wControls65 : List (Call Empty) := [.addConditionalGate (List.range 65) 0 .X [0]]
+/-- a composite holding a sub-gate on local qubit 1 although it is one qubit wide (`Composite::add_gate` validates nothing) -/
+def wCompSub : List (Call Empty) := [.addGate (.Composite "c" 1 (.cons .H [1] .nil)) [0]]
+/-- a well-formed composite and a loop with 0 iterations -/
+def wCompGood : List (Call Empty) :=
+  [.addGate (.Composite "c" 2 (.cons .H [1] (.cons .CX [1, 0] .nil))) [0, 1],
+   .addGate (.Loop "l" 0 "b" 1 (.cons .X [0] .nil)) [1], .measureAll [1, 0]]
 /-- a well-formed circuit: Bell pair, measured -/
 def wGood : List (Call Empty) := [.h 0, .cx 0 1, .measureAll [0, 1]]
 
@@ -153,6 +159,18 @@ theorem condCtl_cq : cQasmCls (built 1 2 wCondCtl) = .panic := by decide +kernel
 theorem controls65_accepted : allAccepted 1 65 wControls65 = true := by decide +kernel
 theorem controls65_vec : runVec (built 1 65 wControls65) 1 [] = .panic := by decide +kernel
 theorem controls65_stab : runStab (built 1 65 wControls65) 1 [] = .panic := by decide +kernel
+
+theorem compSub_accepted : allAccepted 1 0 wCompSub = true := by decide +kernel
+theorem compSub_defects : circDefects (built 1 0 wCompSub) = [.badComposite] := by decide +kernel
+theorem compSub_vec : runVec (built 1 0 wCompSub) 1 [] = .panic := by decide +kernel
+theorem compSub_oq : openQasmCls (built 1 0 wCompSub) = .panic := by decide +kernel
+theorem compSub_cq : cQasmCls (built 1 0 wCompSub) = .panic := by decide +kernel
+theorem compSub_latex : latexOutcome (built 1 0 wCompSub) = .panic := by decide +kernel
+
+theorem compGood_accepted : allAccepted 2 2 wCompGood = true := by decide +kernel
+theorem compGood_wf : WellFormed (built 2 2 wCompGood) 2 = true := by decide +kernel
+theorem compGood_oq : openQasmCls (built 2 2 wCompGood) = .ok := by decide +kernel
+theorem compGood_latex : latexOutcome (built 2 2 wCompGood) = .ok () := by decide +kernel
 
 theorem good_accepted : allAccepted 2 2 wGood = true := by decide +kernel
 theorem good_wf : WellFormed (built 2 2 wGood) 3 = true := by decide +kernel
